@@ -132,3 +132,13 @@ func VerifErrName(err error) string {
 const VerifClosingNothing = closingNothing
 const VerifClosingStream = closingStream
 const VerifClosingSession = closingSession
+
+// VerifTryAccept takes a stream out of the accept queue if one is waiting (never blocks).
+func VerifTryAccept(sesh *Session) *Stream {
+	select {
+	case s := <-sesh.acceptCh:
+		return s
+	default:
+		return nil
+	}
+}
